@@ -281,6 +281,29 @@ def run_absent(case, res=None):
                 check_present(built, w)
             if res is not None:
                 res.cls("absent:earlier_index_after_%s_setup" % how)
+        # two indexes ALIVE at once under one scheme object and one key (an application keeping the old index while it builds the
+        # new one): a keyword stored in the first and absent from the second is searched alternately on both
+        ks = list(built.db)
+        if len(ks) >= 2:
+            from vlib.search_common import stage_violation
+            db_a, edb_a = built.db, built.edb
+            gone = ks[0]
+            db_b = {w: list(v) for w, v in db_a.items() if w != gone}
+            try:
+                edb_b = built.scheme.EDBSetup(built.key, db_b)
+            except Exception as e:
+                raise stage_violation(built.scheme_name, "EDBSetup(second live database, same scheme object)", e)
+            try:
+                for _ in range(2):
+                    built.db, built.edb = db_a, edb_a
+                    check_present(built, gone)
+                    built.db, built.edb = db_b, edb_b
+                    check_absent(built, gone, "stored in one live index and absent from the other, same scheme object and key")
+                    check_present(built, ks[1])
+            finally:
+                built.db, built.edb = db_a, edb_a
+            if res is not None:
+                res.cls("absent:two_live_indexes")
         return len(absent)
 
 
